@@ -7,8 +7,16 @@ package c12raw
 
 import (
 	"context"
+	"crypto/ecdsa"
+	"crypto/elliptic"
+	"crypto/rand"
+	"crypto/tls"
+	"crypto/x509"
+	"crypto/x509/pkix"
 	"encoding/json"
 	"fmt"
+	"math/big"
+	"net"
 	"reflect"
 	"sort"
 	"strconv"
@@ -563,4 +571,59 @@ func C12Canon(m string, v any) any {
 		}
 	}
 	return v
+}
+
+// C12TLS is the server-side TLS configuration (self-signed certificate generated once per process).
+var C12TLS = func() *tls.Config {
+	key, err := ecdsa.GenerateKey(elliptic.P256(), rand.Reader)
+	if err != nil {
+		panic(err)
+	}
+	tpl := &x509.Certificate{SerialNumber: big.NewInt(12), Subject: pkix.Name{CommonName: "verif"},
+		NotBefore: time.Now().Add(-time.Hour), NotAfter: time.Now().Add(24 * time.Hour),
+		KeyUsage: x509.KeyUsageDigitalSignature, ExtKeyUsage: []x509.ExtKeyUsage{x509.ExtKeyUsageServerAuth},
+		IPAddresses: []net.IP{net.ParseIP("127.0.0.1")}}
+	der, err := x509.CreateCertificate(rand.Reader, tpl, tpl, &key.PublicKey, key)
+	if err != nil {
+		panic(err)
+	}
+	return &tls.Config{Certificates: []tls.Certificate{{Certificate: [][]byte{der}, PrivateKey: key}}}
+}()
+
+var c12Seen = map[string]bool{}
+
+// C12RunServer starts a miniredis that enforces TLS and/or a password, on an address never handed out
+// before in this process (the wrapper caches go-redis clients by address for the life of the process).
+func C12RunServer(stls bool, spass string) (*miniredis.Miniredis, error) {
+	for {
+		var s *miniredis.Miniredis
+		var err error
+		if stls {
+			s, err = miniredis.RunTLS(C12TLS)
+		} else {
+			s, err = miniredis.Run()
+		}
+		if err != nil {
+			return nil, err
+		}
+		if c12Seen[s.Addr()] {
+			s.Close()
+			continue
+		}
+		c12Seen[s.Addr()] = true
+		if spass != "" {
+			s.RequireAuth(spass)
+		}
+		return s, nil
+	}
+}
+
+// C12Restart closes and restarts a server on the same port, data kept (miniredis' own Restart would come
+// back without TLS).
+func C12Restart(s *miniredis.Miniredis, stls bool) error {
+	s.Close()
+	if stls {
+		return s.StartTLS(C12TLS)
+	}
+	return s.Restart()
 }
